@@ -113,7 +113,7 @@ type c18Case struct {
 }
 
 func genAckOnly(t *rapid.T) dhcpHistory {
-	h := dhcpHistory{Cfg: dhcpCfg{Net: rapid.SampledFrom([]int{0, 0, 1, 2}).Draw(t, "net"), Mode: rapid.IntRange(1, 3).Draw(t, "mode"), DNS: rapid.SampledFrom([]int{0, 0, 0, 1, 2}).Draw(t, "dnsCfg")}}
+	h := dhcpHistory{Cfg: dhcpCfg{Net: rapid.SampledFrom([]int{0, 0, 1, 2, 3}).Draw(t, "net"), Mode: rapid.IntRange(1, 3).Draw(t, "mode"), DNS: rapid.SampledFrom([]int{0, 0, 0, 1, 2}).Draw(t, "dnsCfg")}}
 	nclients := rapid.IntRange(1, 6).Draw(t, "nclients")
 	for i := rapid.IntRange(1, 10).Draw(t, "nsteps"); i > 0; i-- {
 		c := rapid.IntRange(0, nclients-1).Draw(t, "c")
@@ -123,7 +123,8 @@ func genAckOnly(t *rapid.T) dhcpHistory {
 		case 0, 1, 2, 3:
 			x := rapid.IntRange(0, 3).Draw(t, "xid")
 			nm, prl := rapid.IntRange(0, 2).Draw(t, "name"), rapid.IntRange(0, 4).Draw(t, "prl")
-			h.Ops = append(h.Ops, dOp{K: "discover", C: c, XID: x, Name: nm, PRL: prl}, dOp{K: "request", C: c, Kind: "sel-ours", Req: "offered", Name: nm, PRL: prl})
+			// one discover in four asks for the address that shares its last octet with a held one (LANs wider than /24)
+			h.Ops = append(h.Ops, dOp{K: "discover", C: c, XID: x, Name: nm, PRL: prl, Req: rapid.SampledFrom([]string{"", "", "", "twin"}).Draw(t, "want")}, dOp{K: "request", C: c, Kind: "sel-ours", Req: "offered", Name: nm, PRL: prl})
 		case 4:
 			h.Ops = append(h.Ops, dOp{K: "request", C: c, Kind: rapid.SampledFrom([]string{"renew", "reboot"}).Draw(t, "kind"), Req: "current"})
 		case 5:
